@@ -384,6 +384,23 @@ func (p *Program) Run(rc RunConfig) *RunResult {
 		deadline = t0.Add(rc.Timeout)
 	}
 	stopped := false
+	smt.ResetEscalationBudget()
+	var solvers []*smt.Solver
+	aborted := false
+	if !deadline.IsZero() {
+		// watchdog: a worker stuck in a long solver call must not outlive the budget by much
+		go func() {
+			time.Sleep(time.Until(deadline) + 20*time.Second)
+			mu.Lock()
+			aborted = true
+			ss := append([]*smt.Solver{}, solvers...)
+			mu.Unlock()
+			q.stop()
+			for _, s := range ss {
+				s.Kill()
+			}
+		}()
+	}
 	for w := 0; w < rc.Workers; w++ {
 		wg.Add(1)
 		go func(w int) {
@@ -397,6 +414,9 @@ func (p *Program) Run(rc RunConfig) *RunResult {
 				return
 			}
 			defer s.Close()
+			mu.Lock()
+			solvers = append(solvers, s)
+			mu.Unlock()
 			ctx := NewCtx(b, s, rc.Mode)
 			if rc.MaxDec > 0 {
 				ctx.MaxDecisions = rc.MaxDec
@@ -414,6 +434,13 @@ func (p *Program) Run(rc RunConfig) *RunResult {
 				pr := in.runPath(entry, prefix)
 				q.push(ctx.pending)
 				mu.Lock()
+				if aborted {
+					// the watchdog killed the solvers: this path did not finish
+					res.Remaining++
+					mu.Unlock()
+					q.finish()
+					break
+				}
 				res.Paths++
 				res.Ends[pr.End]++
 				if pr.End != "ok" && pr.End != "PANIC" && len(res.EndSamples[pr.End]) < 5 {
